@@ -225,7 +225,13 @@ func verifConnect(p *plugin, conn stdnet.Conn) error {
 			close(p.closeC)
 			p.close()
 		default:
-			p.RegisterPlugin(context.Background(), &RegisterPluginRequest{PluginName: p.base, PluginIdx: p.idx})
+			// a launched plugin is identified by its file name: whatever index it claims when registering
+			// (here 10-early claims 90) must not change its name or its place in the invocation order
+			claim := p.idx
+			if claim == "10" {
+				claim = "90"
+			}
+			p.RegisterPlugin(context.Background(), &RegisterPluginRequest{PluginName: p.base, PluginIdx: claim})
 		}
 	}()
 	return nil
@@ -304,8 +310,10 @@ func H_C18_launch() {
 	// active plugins: only well-behaved ones (a well-behaved one may still miss the registration timeout),
 	// in index order
 	for i, p := range r.plugins {
+		known := p.name() == "10-early" || p.name() == "20-late"
+		vassert(known, "launched-plugin-identity-changed-by-its-registration")
 		good := (p.name() == "10-early" && b1 == lpGood) || (p.name() == "20-late" && b0 == lpGood)
-		vassert(good, "failed-plugin-activated")
+		vassert(good || !known, "failed-plugin-activated")
 		if i > 0 {
 			vassert(r.plugins[i-1].idx < p.idx, "invocation-order")
 		}
